@@ -32,8 +32,10 @@ type Case struct {
 	NoMetaDir  bool     `json:"no_metadata_directory,omitempty"`
 	Output     string   `json:"output,omitempty"` // silent | one-line | multi-line
 	TwoSigners bool     `json:"two_signers,omitempty"`
-	HexSteps   bool     `json:"hex_step_names,omitempty"` // step names containing all sixteen hexadecimal digits
-	OddNames   bool     `json:"odd_names,omitempty"`      // product names with a comma and a space, content with CR LF line endings
+	HexSteps   bool     `json:"hex_step_names,omitempty"`
+	StaleLinks bool     `json:"stale_links,omitempty"`      // a longer, older file already lies where each step's link is written
+	ExpCmd     bool     `json:"expected_command,omitempty"` // the layout states an expected command for every step (a soft check) // step names containing all sixteen hexadecimal digits
+	OddNames   bool     `json:"odd_names,omitempty"`        // product names with a comma and a space, content with CR LF line endings
 	Tamper     string   `json:"tamper,omitempty"`
 	What       string   `json:"what,omitempty"`
 	Link       []string `json:"link,omitempty"`
@@ -146,6 +148,15 @@ func produce(base string, cs Case) *chain {
 		if cs.OddNames {
 			edit = fmt.Sprintf("printf 'content-%d\\r\\nsecond line\\r\\n' > '%s/file%d'; printf 'x\\n' > '%s/notes,v%d .txt'", i+1, src, i+1, src, i+1)
 		}
+		if cs.StaleLinks {
+			// as after an earlier, more talkative attempt at the step with the same key
+			where := ch.links
+			if cs.NoMetaDir {
+				where = ch.proj
+			}
+			stale := `{"signed": {"_type": "link", "name": "earlier attempt", "byproducts": {"stdout": "` + strings.Repeat("earlier output ", 6000) + `"}}, "signatures": []}`
+			os.WriteFile(filepath.Join(where, gen.LinkName(stepName(i), gen.Key(funcKeys[i]).ID)), []byte(stale), 0o644)
+		}
 		var rc int
 		var o string
 		if mode == "run" {
@@ -184,6 +195,9 @@ func produce(base string, cs Case) *chain {
 			prods = append([][]string{{"CREATE", prefix + fmt.Sprintf("notes,v%d .txt", i+1)}}, prods...)
 		}
 		st := gen.Step(stepName(i), 1, []string{k.ID}, mats, prods)
+		if cs.ExpCmd {
+			st.ExpectedCommand = []string{"make", "-C", "src", fmt.Sprintf("file%d", i+1)}
+		}
 		if cs.Cert {
 			st.PubKeys = []string{}
 			st.CertificateConstraints = []intoto.CertificateConstraint{{CommonName: "functionary", DNSNames: []string{"*"}, Emails: []string{"*"}, Organizations: []string{"*"}, Roots: []string{"*"}, URIs: []string{"*"}}}
@@ -407,6 +421,12 @@ func optTag(cs Case) string {
 	if cs.HexSteps {
 		o = append(o, "step-names-with-all-hex-digits")
 	}
+	if cs.StaleLinks {
+		o = append(o, "older-longer-link-files-in-place")
+	}
+	if cs.ExpCmd {
+		o = append(o, "expected-commands-stated")
+	}
 	if len(o) == 0 {
 		return "default-options"
 	}
@@ -612,7 +632,7 @@ func enumerate(thorough bool, emit func(Case)) {
 	}
 	opts := []Case{{}, {DSSE: true}, {Cert: true}, {Lstrip: true}, {NoMetaDir: true}, {Output: "one-line"}, {Output: "multi-line"}, {TwoSigners: true},
 		{DSSE: true, Output: "multi-line"}, {DSSE: true, Cert: true}, {DSSE: true, TwoSigners: true}, {Lstrip: true, NoMetaDir: true}, {OddNames: true}, {OddNames: true, Lstrip: true}, {OddNames: true, DSSE: true},
-		{HexSteps: true}, {HexSteps: true, DSSE: true},
+		{HexSteps: true}, {HexSteps: true, DSSE: true}, {StaleLinks: true}, {StaleLinks: true, DSSE: true}, {ExpCmd: true}, {ExpCmd: true, DSSE: true},
 		{Cert: true, Inter: "separate-files"}, {Cert: true, Inter: "bundle"}, {Cert: true, Inter: "withheld"}}
 	if thorough {
 		for _, d := range []bool{false, true} {
@@ -732,7 +752,7 @@ func replay(c *mcx.Ctx, raw json.RawMessage) (string, string) {
 func init() {
 	mcx.Register(&mcx.Driver{
 		ID: "C20", Run: run, Replay: replay, NoSequence: true,
-		Rule: "histories of CLI invocations of the binary built from the current tree: supply chains of 1..3 steps, each step carried out with `run` or with `record start` / edit / `record stop` (all mode sequences up to 2 steps, uniform ones for 3; thorough: more), under 20 option sets (step names containing all sixteen hexadecimal digits, default, product names with a comma and a space plus CR LF content, --use-dsse, --cert, --cert with functionary certificates two intermediates below the layout root and the intermediates handed to `verify -i` as one file each, as one bundle file, or withheld, --lstrip-paths, no --metadata-directory, one-line and multi-line command output, two layout signers via `sign` twice, and combinations; thorough: the full product of five options), layout signed with `in-toto sign`; then every single tampering of 14 (none, product line endings changed only, product byte changed / added / removed, link digest edited / re-signed by a foreign key / deleted, layout field edited / re-signed by a foreign key, wrong layout key, extra layout key that did not sign, expired layout, second key supplied) followed by `verify`; " +
+		Rule: "histories of CLI invocations of the binary built from the current tree: supply chains of 1..3 steps, each step carried out with `run` or with `record start` / edit / `record stop` (all mode sequences up to 2 steps, uniform ones for 3; thorough: more), under 24 option sets (an older, longer file already lying where each link is written, expected commands stated in the layout, step names containing all sixteen hexadecimal digits, default, product names with a comma and a space plus CR LF content, --use-dsse, --cert, --cert with functionary certificates two intermediates below the layout root and the intermediates handed to `verify -i` as one file each, as one bundle file, or withheld, --lstrip-paths, no --metadata-directory, one-line and multi-line command output, two layout signers via `sign` twice, and combinations; thorough: the full product of five options), layout signed with `in-toto sign`; then every single tampering of 14 (none, product line endings changed only, product byte changed / added / removed, link digest edited / re-signed by a foreign key / deleted, layout field edited / re-signed by a foreign key, wrong layout key, extra layout key that did not sign, expired layout, second key supplied) followed by `verify`; " +
 			"oracle: exit status 0 <=> the library called in-process on the very same files returns nil, honest => 0, tampered => non-zero, links are at the names the verifier globs for, no preliminary link is left; separately `sign --verify` x {right key, public key, wrong key, tampered file} x wrappers, `key id` / `key layout` for every file of the key pool, `match-products` for the 81 combinations of two link products and two local files. states = produced chains, transitions = CLI invocations.",
 		Assumptions: []string{"the CLI is built with plain `go build` from /repo (no overlay)", "observations are compared after replacing scratch paths"},
 		Workers:     16,
